@@ -21,7 +21,9 @@ CHECKS = {
             "lost verdict after EndRun (path-sensitive flag propagation); every bad-outcome channel (test results, layer "
             "hook exceptions, import failures, missing child layer) reaches an accumulator the verdict reads; the "
             "subprocess reader fails closed on every exceptional exit; status plumbing Runner.failed -> run_internal -> "
-            "sys.exit; the report channel is separated from test output. Not decided: header look-alike lines written "
+            "sys.exit; the report channel is separated from test output; of everything user code may raise during discovery "
+            "(import of a test module, test_suite()) only KeyboardInterrupt leaves find_suites (SystemExit becomes an "
+            "import failure). Not decided: header look-alike lines written "
             "straight to fd 2 by tests.",
             "CFG path rules + three-valued evaluation of the verdict expression + exception-escape analysis", "4/C02"),
     'C04': ("Exception containment: interprocedural escape sets of everything a layer setUp/tearDown or a debugged test "
@@ -38,7 +40,9 @@ CHECKS = {
             "typestate exploration over the unittest driver protocol + def-use provenance", "4/C05"),
     'C07': ("Wire agreement between child report writer and parent reader (header fields by role, body order, one line "
             "per entry, line-break discipline), fail-closed reader on every exceptional exit, channel separation and "
-            "drain-thread ordering, done/kill/reap on every exit. Not decided: byte-level noise on fd 2, crash timing, "
+            "drain-thread ordering, done/kill/reap on every exit; the parent waits for every child (a thread leaves the "
+            "running set only when it is the one found dead; polling loop until nothing is ready or running). Not "
+            "decided: byte-level noise on fd 2, crash timing, "
             "real termination (scheduling/OS).",
             "writer/reader cross-check + CFG must-pass-through with exception edges", "4/C07"),
     'C12': ("Argument roles of summary/totals (sum-of-lengths terms), list routing, accumulator agreement of the "
@@ -62,13 +66,16 @@ CHECKS = {
             "executable is reachable from the listing in the call graph; each test loop executes its test exactly once per "
             "completed iteration inside the repeat loop; a completed layer is popped exactly once, one thread per queued "
             "layer started once, empty first layer iff -j N parent; child command line grammar agrees between writer and "
-            "reader; feature order Find < Shuffle < Filter < Listing. Not decided: equality of the executed multiset with "
+            "reader; feature order Find < Shuffle < Filter < Listing; the suite walk visits every member unconditionally; a "
+            "child keeps exactly the layer whose name equals --resume-layer. Not decided: equality of the executed multiset with "
             "an independent computation of the selection.",
             "who-may-write tables + CFG once-per-iteration rules + call-graph reachability + writer/reader agreement", "4/C03"),
     'C06': ("-j N structure: the only thread start is guarded by len(running) < processes in a while loop, started "
-            "threads are recorded before the bound is re-tested, threads leave only when not alive, main loop runs while "
+            "threads are recorded before the bound is re-tested, threads leave only when not alive and the element removed "
+            "is the one tested (no stale index), main loop runs while "
             "ready or running; child killed and reaped and result.done set on every exit; one flush statement, whole "
-            "list, under result.done, cursor over results in layer order, reap before flush; deferred collectors never "
+            "list, under result.done, cursor over results in the caller's layer order (the parameter is not re-ordered), reap "
+            "before flush; deferred collectors never "
             "write to a stream and keep every non-dot line, the immediate one only for processes == 1. Not decided: "
             "outcome equality with the sequential run, real schedules, liveness.",
             "guard-literal and dominance rules on the CFG of resume_tests + effect classification of collector classes", "4/C06"),
@@ -86,12 +93,14 @@ CHECKS = {
     'C10': ("Determinism and once-each: the argument of order_by_bases reaches the result only through sorted(key="
             "layer_sort_key); the key is pure (names and bases, no set iteration, no id/hash); premises of the bases-first "
             "and unit-first arguments (pre-order gather over all bases, one reversal, first-occurrence de-duplication, "
-            "unit layer excluded from the key, descending sort); single ordering source. NOT decided: that the order is "
+            "unit layer excluded from the key, descending sort); single ordering source; a child keeps exactly its own "
+            "layer (each layer once across processes). NOT decided: that the order is "
             "bases-first/unit-first for every graph (induction over data), tie behaviour.",
             "order-provenance rules + structural premises", "4/C10"),
     'C11': ("Shuffle: the per-layer list is list(suite) modified only by mirrored swap assignments and stored back "
             "under the same key; layers visited in sorted order; local random.Random seeded from self.seed, only seed()/"
-            "random() used; feature order Find < Shuffle < Filter < Listing; clock-derived seed recorded on the options "
+            "random() used; feature order Find < Shuffle < Filter < Listing and the shuffling hook runs no later than the "
+            "filtering hook in the hook sequence of Runner.run; clock-derived seed recorded on the options "
             "and forwarded to children; seed always reported. Not decided: index arithmetic of the Fisher-Yates step, "
             "the float stream of random().",
             "mutation-shape rule (swap-only) + who-may-call on the RNG + def-use of the seed", "4/C11"),
@@ -109,7 +118,8 @@ CHECKS = {
             "effect ownership over the call graph + guard-literal analysis", "4/C15"),
     'C17': ("XML: every test-derived string reaching Element.set/.text passes a sanitiser whose regex character class "
             "(computed from the regex syntax tree) covers all code points outside XML 1.0 Char; ASCII-safe serialisation; "
-            "tests == len(records), failure/error counters and children created under the same field, one record per "
+            "tests == len(records), failure/error counters and children created under the same field and attached to the "
+            "serialised tree, one record per "
             "outcome; wrapper overrides record once and forward. Not decided: subtest class attribution, file names.",
             "taint-to-sink rule with a statically computed character class + def-use", "4/C17"),
     'C18': ("Global state: teardown loops on every exit after the test phase (exception edges); for each catalogued "
@@ -123,10 +133,15 @@ CHECKS = {
             "nothing else; list passed whole with the test that ended; enumerate covers every ident of "
             "sys._current_frames, proxy equality by ident. Not decided: thread timing, identifier reuse.",
             "typestate exploration + guard-literal polarity", "4/C19"),
-    'C20': ("ONLY totality and representation invariants: all reads of the neighbour map are total, unvisited/state "
-            "and stacked/stack invariants, yield only under the root test, default-mode drop condition. NOT decided "
-            "and not claimed: that the components are exactly the SCCs for every graph (algorithm correctness over data).",
-            "contradiction rule on map accesses + structural invariants", "4/C20"),
+    'C20': ("Necessary conditions of Tarjan's algorithm on every path of sccs(): all reads of the neighbour map are total; "
+            "unvisited/state and stacked/stack invariants; yield only under the root test made on the node returned "
+            "from; default-mode drop condition; low-link discipline by must-alias data flow: dfs numbers immutable and "
+            "from one counter, every low-link store is a min-update of the CURRENT parent (top of the ancestor list at "
+            "that point on every path) with the returned child's low or a stacked neighbour's number, such an update is "
+            "passed on every return to a parent (unless root) and for every stacked neighbour, the component is popped "
+            "down to exactly the root. NOT decided and not claimed: that these conditions are sufficient, i.e. that the "
+            "components are exactly the SCCs for every graph (algorithm correctness over data).",
+            "forward must-alias data-flow analysis over the CFG + contradiction rule on map accesses + structural invariants", "4/C20"),
 }
 
 REASON_NOT_BUILT = "static check for this property is not built yet in this round (see DESIGN.md section 4 for the planned rules)"
